@@ -403,6 +403,7 @@ func c11Run(f failer, cfg world.Cfg, c c11Case) {
 		rec := func(r c11Rec) { mu.Lock(); recs = append(recs, r); mu.Unlock() }
 		for _, op := range c.Setup {
 			if h := c11Exec(w, 0, op, &clock, rec); h != nil {
+				busyIsInconclusive(f, h)
 				failf(f, "setup %+v: %s", op, h.Detail)
 			}
 		}
